@@ -13,6 +13,17 @@ from . import preproc
 from .rate import get_rater
 
 
+def same_training_set(ts1, ts2):
+    """Compare two training sets (label, path, or tuple of arrays (X, y))"""
+    if isinstance(ts1, tuple) and isinstance(ts2, tuple):
+        return (len(ts1) == len(ts2)
+                and all(np.array_equal(a, b) for a, b in zip(ts1, ts2)))
+    elif isinstance(ts1, tuple) or isinstance(ts2, tuple):
+        return False
+    else:
+        return ts1 == ts2
+
+
 class Indentation(afmformats.AFMForceDistance):
     def __init__(self, data, metadata, diskcache=None):
         """Additional functionalities for afmformats.AFMForceDistance"""
@@ -378,7 +389,7 @@ class Indentation(afmformats.AFMForceDistance):
         elif (self._rating is None or
               self._rating[0] != curhash or
               self._rating[1] != regressor or
-              self._rating[2] != training_set or
+              not same_training_set(self._rating[2], training_set) or
               self._rating[3] != names or
               self._rating[4] != lda):
             # Perform rating
